@@ -221,6 +221,35 @@ def r6_index_agreement(ctx):
                     if a[0] == 'bin' and a[1] == 'BitAnd' and bbt in (a[2], a[3]) and ('fld', ('p', 2), '0') in (a[2], a[3]) and is_true(val):
                         src = [e for e in o.events if e[0] == 'call' and e[1] == 'std::iter::Iterator::enumerate']
                         ok = bool(src) and any(s[0] == 'fld' and s[2] == 'bitboards' for s in subterms(src[0][2][0]))
+    if not ok and len(somes) == 1:
+        # the same search written with an adapter: bitboards.iter().position(|bb| bb.overlaps(square)).map(Piece::from_usize)
+        o = somes[0]
+        v = dict(o.value[4])['0']
+        if v[0] == 'call' and v[1].endswith('Piece::from_usize') and v[2][0][0] == 'fld' and v[2][0][2] == 'Some.0':
+            pos = v[2][0][1]
+            if pos[0] == 'call' and pos[1].endswith('Iterator>::position') and pos[2][1][0] == 'agg' and pos[2][1][1] == 'closure':
+                it = pos[2][0]
+                while it[0] in ('ref', 'der'):
+                    it = it[1]
+                pev = [e for e in o.events if e[0] == 'call' and e[1] == pos[1]]
+                itv = dict(pev[0][6]).get(0) if (pev and len(pev[0]) > 6 and it[0] == 'L') else it
+                from_bitboards = itv is not None and any(s_[0] == 'fld' and s_[2] == 'bitboards' and s_[1] in (('der', ('p', 1)), ('p', 1)) for s_ in subterms(itv))
+                snaps = [e[2] for e in o.events if e[0] == 'closure' and e[1] == pos[2][1][2]]
+                co = Engine(facts).run(pos[2][1][2])
+                ctx.touch(pos[2][1][2])
+                if from_bitboards and snaps and len(co) == 1 and co[0].kind == 'return' and not co[0].conds:
+                    val = subst_upvars(co[0].value, snaps[0])
+                    el, sqv = ('fld', ('der', ('p', 2)), '0'), ('fld', ('p', 2), '0')
+                    try:
+                        from sa.evalterm import ev, Unevaluable
+                        def bev(t_, env):
+                            if t_[0] == 'un' and t_[1] == 'Not':
+                                return int(not bev(t_[2], env))
+                            return int(bool(ev(t_, env)))
+                        tt = [bev(val, {el: a, sqv: b}) for a, b in ((0b0110, 0b0100), (0b0110, 0b1000), (0, 1), (1, 1))]
+                        ok = tt == [1, 0, 0, 1]
+                    except Exception:
+                        ok = False
     ctx.ob(rule, name, 'returns from_usize(i) for the slot i whose bitboard overlaps the square', ok, found=found,
            expected='for (i, bb) in bitboards.iter().enumerate(): if bb.overlaps(square) return Some(from_usize(i))')
 
